@@ -43,7 +43,8 @@ Decode(T, n, ph) ==
   LET I == RowIdx(T, n, ph) IN
   IF Cardinality(I) # 1 THEN [ok |-> FALSE, present |-> Cardinality(I), fin |-> TRUE]
   ELSE LET r == T.rows[CHOOSE i \in I : TRUE] IN
-       IF \E c \in NumCols : ~IsNum(r[c]) THEN [ok |-> FALSE, present |-> 1, fin |-> FALSE]
+       \* (not finite = a NaN / inf cell, codes 3 / 4; a blank or otherwise unreadable cell leaves the row undecoded, unjudged)
+       IF \E c \in NumCols : ~IsNum(r[c]) THEN [ok |-> FALSE, present |-> 1, fin |-> ~\E c \in NumCols : r[c][1] \in {3, 4}]
        ELSE [ok |-> TRUE, present |-> 1, fin |-> TRUE,
              vin |-> DJ(r.vin), vout |-> DJ(r.vout), iin |-> DJ(r.iin), iout |-> DJ(r.iout),
              pwr |-> DJ(r.pwr), loss |-> DJ(r.loss), eff |-> DJ(r.eff), raw |-> r]
@@ -105,6 +106,10 @@ WarnOK(S, n, ph, r, ta, hasT) ==
   IN IF Unlisted(S, n, ph) THEN toks = {}
      ELSE /\ toks \subseteq LimKeys(S, n)
           /\ \A key \in LimKeys(S, n) :
+                \* (temperature columns hidden = no row has a positive rise; a row whose rise is negative by an unconverged
+                \*  digit - 0 Ohm element, huge thermal resistance - has no reported temperature to judge its tr / tp by)
+                \/ (key \in {"tr", "tp"} /\ ~hasT /\
+                      ~DIsZero(Rt(S, n) \otimes (IF Kind(S, n) = "LOAD" THEN DAbs(r.vin) \otimes r.iin ELSE r.loss)))
                 \/ NearBound(Quant(r, key, ta, hasT), LimOf(S, n, key), key, sc)
                 \/ (key \in toks) = Exceeds(Quant(r, key, ta, hasT), LimOf(S, n, key), key)
 
@@ -131,7 +136,7 @@ EnergyOK(S, ph, e, p) ==
   IF ph = "" THEN EqX(e, D24 \otimes p, D24 \otimes p, DZero)
   ELSE EqX(e \otimes TotalDur(S), (D24 \otimes p) \otimes DurOf(S, ph), (D24 \otimes p) \otimes DurOf(S, ph), DZero)
 EffOK(eff, p, l) == IF DLt(DZero, p) THEN EqX(eff \otimes p, Hund \otimes DAbs(p \ominus l), Hund \otimes (p \oplus DAbs(l)), DZero)
-                    ELSE DEq(eff, Hund)
+                    ELSE DLeq(DZero, eff) /\ DLeq(eff, Hund)      \* (with no power the statement defines no efficiency: any value in range)
 
 DomainRowClauses(S, R, n, ph, r, T, multi) ==
   << Cl("C07.Domain", multi /\ "domain" \in SeqRange(T.cols), r.raw.domain \in DomCands(S, R, n, ph)),
@@ -154,9 +159,9 @@ AggClauses(S, A, R, ph, T) ==
       SubI(x)   == Special(T, "Subsystem " \o x, ph)
       Sub(x)    == T.rows[CHOOSE i \in SubI(x) : TRUE]
   IN
-  << Cl("C07.SingleSourceLayout", TRUE,
-        IF multi THEN "domain" \in TC /\ \A x \in srcs : Cardinality(SubI(x)) = 1
-        ELSE "domain" \notin TC /\ \A x \in srcs : SubI(x) = {}),
+  << \* with several sources every source has its Subsystem row and the components are attributed (what a single-source
+     \* table looks like is not part of the statement; a Subsystem row it may have is held to the same clauses)
+     Cl("C07.SubsystemRows", multi, "domain" \in TC /\ \A x \in srcs : Cardinality(SubI(x)) = 1),
      Cl("C07.Total.Row", TRUE, Cardinality(totI) = 1),
      Cl("C07.Total.Power", ok /\ Cardinality(totI) = 1,
         IsNum(tot.pwr) /\ EqX(DJ(tot.pwr), psrc, psrc, DZero)),
@@ -165,8 +170,8 @@ AggClauses(S, A, R, ph, T) ==
      Cl("C07.Total.Eff", ok /\ Cardinality(totI) = 1 /\ IsNum(tot.pwr) /\ IsNum(tot.loss),
         /\ IsNum(tot.eff) /\ EffOK(DJ(tot.eff), DJ(tot.pwr), DJ(tot.loss))
         /\ DLeq(DJ(tot.eff), Hund \oplus DE(1, -3))),
-     Cl("C07.Total.Iout", ok /\ ~multi /\ Cardinality(totI) = 1,
-        IsNum(tot.iout) /\ \A x \in srcs : DEq(DJ(tot.iout), Rp[x].iout)),
+     Cl("C07.Total.Iout", ok /\ ~multi /\ Cardinality(totI) = 1 /\ IsNum(tot.iout),
+        \A x \in srcs : DEq(DJ(tot.iout), Rp[x].iout)),
      Cl("C07.Energy.Total", ok /\ Cardinality(totI) = 1 /\ "energy" \in TC /\ IsNum(tot.pwr),
         IsNum(tot.energy) /\ EnergyOK(S, ph, DJ(tot.energy), DJ(tot.pwr))),
      Cl("C09.RollUp.Total", ok /\ Cardinality(totI) = 1, (tot.warn = "Yes") = anyW),
@@ -205,8 +210,11 @@ AvgClauses(S, A, R, PL, T) ==
   << Cl("C07.Average.Row", TRUE, Cardinality(avI) = (IF want THEN 1 ELSE 0)),
      Cl("C07.Average.Power", want /\ Cardinality(avI) = 1 /\ totsOK, Mean("pwr")),
      Cl("C07.Average.Loss",  want /\ Cardinality(avI) = 1 /\ totsOK, Mean("loss")),
-     Cl("C07.Average.Eff",   want /\ Cardinality(avI) = 1 /\ totsOK, Mean("eff")),
-     Cl("C07.Average.Iout",  want /\ Cardinality(avI) = 1 /\ totsOK /\ Cardinality(Sources(S)) = 1
+     \* the average's efficiency: the duration-weighted mean of the per-phase efficiencies (each cell a weighted mean), or
+     \* the efficiency of the averaged power and loss (the row consistent in itself) - the statement admits both readings
+     Cl("C07.Average.Eff",   want /\ Cardinality(avI) = 1 /\ totsOK,
+        Mean("eff") \/ (IsNum(av.eff) /\ IsNum(av.pwr) /\ IsNum(av.loss) /\ EffOK(DJ(av.eff), DJ(av.pwr), DJ(av.loss)))),
+     Cl("C07.Average.Iout",  want /\ Cardinality(avI) = 1 /\ totsOK /\ Cardinality(Sources(S)) = 1 /\ IsNum(av.iout)
                                /\ \A i \in DOMAIN PL : IsNum(totOf(PL[i]).iout), Mean("iout")),
      Cl("C07.Energy.Average", want /\ Cardinality(avI) = 1 /\ "energy" \in TC /\ IsNum(av.pwr),
         IsNum(av.energy) /\ EnergyOK(S, "", DJ(av.energy), DJ(av.pwr))),
@@ -295,7 +303,7 @@ RowClauses4(S, A, R, n, ph, r, sup, sel, kids, tol, ta, T) ==
   IN
   << \* ---- C01 : neighbours and transfer laws
      Cl("C01.Link.Vin",   ~src /\ rs.ok, DEq(r.vin, rs.vout)),
-     Cl("C01.SourceVin",  src, IF OutLive(S, n, ph) THEN EqS1(r.vin, PC(S, n, "vo"), tol) ELSE DIsZero(r.vin)),
+     Cl("C01.SourceVin",  src /\ OutLive(S, n, ph), EqS1(r.vin, PC(S, n, "vo"), tol)),
      Cl("C01.Link.Iout",  kidsOK,
         IF src THEN EqS1(r.iout, sumKids, tol)
         ELSE EqX(r.iout, sumKids, sumKids, thru)),
@@ -316,8 +324,10 @@ RowClauses4(S, A, R, n, ph, r, sup, sel, kids, tol, ta, T) ==
         ELSE EqX(r.pwr, DAbs(r.vin) \otimes r.iin, r.pwr, thru)),
      \* the documented loss expression of the kind on the row's own quantities (exact class; a series drop is
      \* computed by the library with cancellation, hence the throughput term)
+     \* ... or, equivalently at a steady state, what the statement itself says: Power minus what is handed on
      Cl("C02.Acct.Loss", ~load,
-        LossLaw(S, n, ph, sel, r.vin, r.vout, r.iin, r.iout, r.loss, LAMBDA x, y, sc : EqX(x, y, sc, thru))),
+        \/ LossLaw(S, n, ph, sel, r.vin, r.vout, r.iin, r.iout, r.loss, LAMBDA x, y, sc : EqX(x, y, sc, thru))
+        \/ (~src /\ EqX(r.loss, r.pwr \ominus handed, r.pwr \oplus handed, thru))),
      Cl("C02.LoadExclusive", load,
         IF IsLossLoad(S, n)
         THEN DIsZero(r.pwr) /\ EqX(r.loss, DAbs(r.vin) \otimes r.iin, r.loss, thru)
@@ -332,8 +342,12 @@ RowClauses4(S, A, R, n, ph, r, sup, sel, kids, tol, ta, T) ==
         /\ \/ EqX(r.eff \otimes r.pwr, Hund \otimes (r.pwr \ominus r.loss), Hund \otimes (r.pwr \oplus DAbs(r.loss)), DZero)
            \/ DLeq(DAbs(r.pwr \ominus r.loss), TolS(r.pwr, tol))
         /\ DLeq(DZero, r.eff)
-        /\ DLeq(r.eff, Hund \oplus (Hund \otimes (KS \otimes (tol \oplus Atol))))),
-     Cl("C02.Thermal.Rise", ~src /\ hasT, EqX(DJ(r.raw.trise), Rt(S, n) \otimes heat, Rt(S, n) \otimes heat, DZero)),
+        \* (never above 100: up to the solver's own tolerance on the loss, i.e. 100 x TolP / Power)
+        /\ DLeq((r.eff \ominus Hund) \otimes r.pwr,
+                Hund \otimes TolP(DAbs(r.vin) \oplus DAbs(r.vout), r.iin \oplus r.iout, r.pwr, tol))),
+     Cl("C02.Thermal.Rise", ~src /\ hasT,
+        \/ EqX(DJ(r.raw.trise), Rt(S, n) \otimes heat, Rt(S, n) \otimes heat, DZero)
+        \/ (load /\ EqX(DJ(r.raw.trise), Rt(S, n) \otimes r.loss, Rt(S, n) \otimes r.loss, DZero))),
      Cl("C02.Thermal.Peak", ~src /\ hasT, EqX(DJ(r.raw.tpeak), ta \oplus DJ(r.raw.trise), DAbs(ta) \oplus DAbs(DJ(r.raw.trise)), DZero)),
      \* the columns are hidden when no row has a positive rise; a loss that is negative by an unconverged digit (0 Ohm element)
      \* has a non-positive rise and does not force them to be shown
@@ -501,8 +515,9 @@ WantClauses(c, S) ==
                           \A j \in DOMAIN c.wantlim[i].lims :
                              LET l == c.wantlim[i].lims[j] IN
                              l.k \in LimKeys(S, wn) =>
-                                /\ DEq(LimOf(S, wn, l.k)[1], DJ(l.lo))
-                                /\ DEq(LimOf(S, wn, l.k)[2], DJ(l.hi))),
+                                \* (all limits but tp are compared by magnitude: the sign they are kept with is not observable)
+                                /\ IF l.k = "tp" THEN DEq(LimOf(S, wn, l.k)[1], DJ(l.lo)) /\ DEq(LimOf(S, wn, l.k)[2], DJ(l.hi))
+                                   ELSE DEq(DAbs(LimOf(S, wn, l.k)[1]), DAbs(DJ(l.lo))) /\ DEq(DAbs(LimOf(S, wn, l.k)[2]), DAbs(DJ(l.hi)))),
                  Cl("C06.ConfAsConfigured", TRUE,
                     same /\ \A n \in WN : S.pconf[n].t = At(n).ct /\ ConfKeys(S.pconf[n]) = SeqRange(At(n).ck)) >>, "", "")
 
@@ -547,7 +562,7 @@ AllClauseNames ==
    "C05.Vin", "C05.Vout", "C05.Iin", "C05.AllDead", "C05.Parent", "C05.RailIn", "C05.Domain",
    "C05.OnlySelectedCharged", "C16.LiveComponents", "note.Unmodelled", "events",
    "C09.Exact", "C09.Inactive", "C09.RollUp.Total", "C09.RollUp.Sub",
-   "C07.Domain", "C07.Energy.Row", "C07.SingleSourceLayout", "C07.Total.Row", "C07.Total.Power",
+   "C07.Domain", "C07.Energy.Row", "C07.SubsystemRows", "C07.Total.Row", "C07.Total.Power",
    "C07.Total.Loss", "C07.Total.Eff", "C07.Total.Iout", "C07.Energy.Total", "C07.Subsystem.VIP",
    "C07.Subsystem.Loss", "C07.Energy.Subsystem", "C07.Average.Row", "C07.Average.Power",
    "C07.Average.Loss", "C07.Average.Eff", "C07.Average.Iout", "C07.Energy.Average", "C07.Energy.Sum",
